@@ -2027,6 +2027,159 @@ def payload_root(t):
     return s
 
 
+def source_helper_attrs(repo, adt, helper="serde"):
+    """`#[serde(..)]` (derive-helper) attributes written on a type and on its fields. The compiler drops helper attributes
+    when it lowers the syntax tree, so they are read from the definition's own source lines (file and line of the
+    definition come from the compiler): the attribute lines above the definition and everything up to its closing brace.
+    Returns (type-level attributes, {field name: [attributes]}) as normalised token strings."""
+    import re
+    path = os.path.join(repo, adt["file"])
+    try:
+        lines = open(path, encoding="utf-8").read().split("\n")
+    except OSError:
+        raise AnchorLost(f"source of {adt['path']} ({adt['file']})")
+    l0 = adt["line"] - 1
+    if not (0 <= l0 < len(lines)):
+        raise AnchorLost(f"definition line of {adt['path']}")
+    # attributes above the definition
+    top = []
+    i = l0 - 1
+    while i >= 0 and (lines[i].strip().startswith(("#[", "///", "//")) or lines[i].strip() == "" or lines[i].strip().endswith((")]", ","))):
+        top.insert(0, lines[i])
+        if lines[i].strip() == "" and not any(x.strip().startswith("#[") for x in lines[max(0, i - 3):i]):
+            break
+        i -= 1
+    # body up to the matching brace / semicolon
+    body, depth, seen = [], 0, False
+    for ln in lines[l0:l0 + 400]:
+        body.append(ln)
+        code = re.sub(r'"(?:[^"\\]|\\.)*"', '""', ln.split("//")[0])
+        depth += code.count("{") + code.count("(") - code.count("}") - code.count(")")
+        seen = seen or "{" in code or "(" in code
+        if (seen and depth <= 0) or (not seen and code.rstrip().endswith(";")):
+            break
+    pat = re.compile(r"#\s*\[\s*" + re.escape(helper) + r"\s*\((.*?)\)\s*\]", re.S)
+    norm = lambda x: re.sub(r"\s+", "", x)
+    ty_attrs = [norm(m) for m in pat.findall("\n".join(top))]
+    fields = {}
+    text = "\n".join(body[1:]) if len(body) > 1 else ""
+    pending = []
+    for chunk in re.split(r"(?<=[,{])", "\n".join(body)):
+        found = [norm(m) for m in pat.findall(chunk)]
+        stripped = pat.sub("", chunk)
+        m = re.search(r"(?:pub(?:\([^)]*\))?\s+)?([A-Za-z_][A-Za-z0-9_]*)\s*:", re.sub(r"///.*|//.*", "", stripped))
+        pending += found
+        if m:
+            if pending:
+                fields.setdefault(m.group(1), []).extend(pending)
+            pending = []
+    if pending:
+        fields.setdefault("?", []).extend(pending)
+    return ty_attrs, fields
+
+
+def check_config_immutable(ob, prog, fields, adt="anemo::config::Config", key="config"):
+    """What the application configured is what the library uses: nothing in the library writes a Config field after the
+    value was built (no "normalisation" in the builder, no clamp, no wrap-around cast stored back)."""
+    n = 0
+    for fld in fields:
+        for b, bb, kind, _ in field_accesses(prog, adt, fld, ["anemo"]):
+            if b.is_cleanup(bb):
+                continue
+            n += 1
+            if kind in ("write", "mutref"):
+                own = owner_path(prog, b)
+                derived = "_::" in b.path or "<impl" in b.path or own.startswith(f"<{adt} as")
+                ob.require(derived, f"{key}/{fld}/written/{own}", f"{adt.split('::')[-1]}.{fld} is modified in {b.path} ({kind}) - the configured value is replaced behind the application's back", b.path, b.loc(bb))
+    ob.floor(n, len(fields), f"accesses of {adt.split('::')[-1]} fields {list(fields)}")
+
+
+def check_peer_id_identity_derived(ob, prog, key="PeerId"):
+    """Everything keyed by PeerId (peer map, allow-list, per-peer semaphores and limiters) is exact only if equality and
+    hashing of PeerId are the byte-wise derived ones: two different keys are two different peers."""
+    ims = {i["trait"]: i.get("derived") for i in prog.impls if i["self_ty"] == "anemo::types::peer_id::PeerId" and i["trait"]}
+    for tr in ("core::cmp::PartialEq", "core::cmp::Eq", "core::hash::Hash"):
+        ob.require(ims.get(tr) is True, f"{key}/derived/{tr.split('::')[-1]}", f"PeerId: impl {tr} derived={ims.get(tr)} - a hand-written {tr.split('::')[-1]} can make distinct identities collide", "anemo::types::peer_id::PeerId")
+    a = prog.adts.get("anemo::types::peer_id::PeerId")
+    ok = a is not None and len(a["variants"]) == 1 and len(a["variants"][0]["fields"]) == 1 and a["variants"][0]["fields"][0]["ty"].startswith("[u8; ")
+    ob.require(ok, f"{key}/shape", "PeerId is no longer a [u8; 32] newtype", "anemo::types::peer_id::PeerId")
+
+
+def _impl_body(prog, ty, trait_frag, method):
+    c = [b for p_, b in prog.bodies.items() if (p_.startswith(f"<{ty}<") or p_.startswith(f"<{ty} as ")) and f" as {trait_frag}" in p_ and p_.endswith(f">::{method}")]
+    return c[0] if len(c) == 1 else None
+
+
+def check_fieldwise_clone(ob, prog, ty, key=None):
+    """`impl Clone for <ty>` copies the value field by field (what `#[derive(Clone)]` generates): every field of the clone is
+    the clone of the *same* field of the original - shared state (Arc'd maps, limiters, semaphores) stays shared, nothing is
+    reset or re-created on clone."""
+    key = key or ("clone/" + ty.split("::")[-1])
+    b = _impl_body(prog, ty, "core::clone::Clone", "clone")
+    if b is None:
+        raise AnchorLost(f"impl Clone for {ty}")
+    t = strip_identity(Origins(b).of_local(0))
+    if is_param(t, "self"):
+        ob.count(1)
+        ob.matched += 1
+        return
+    ok = t[0] == "agg" and len(t) > 4 and len(t[3]) == len(t[4]) and bool(t[3])
+    if ok:
+        for op_, fname in zip(t[3], t[4]):
+            u = strip_identity(op_)
+            while u[0] == "call" and name_matches(u[1], "clone::Clone::clone") and u[2]:
+                u = strip_identity(u[2][0])
+            ok = ok and u[0] == "field" and u[2] == fname and is_param(u[1], "self")
+    ob.require(ok, f"{key}/fieldwise", f"<{ty} as Clone>::clone builds {show(t)[:140]} - not a field-by-field copy", b.path)
+
+
+def check_poll_ready_delegates(ob, prog, ty, key=None):
+    """`poll_ready` of a middleware is the inner service's readiness and nothing else (no permit taken, no state touched)."""
+    key = key or ("poll_ready/" + ty.split("::")[-1])
+    b = _impl_body(prog, ty, "tower_service::Service", "poll_ready")
+    if b is None:
+        raise AnchorLost(f"impl Service::poll_ready for {ty}")
+    t = strip_identity(Origins(b).of_local(0))
+    if t[0] == "call" and name_matches(t[1], "Poll::map_err") and t[2]:
+        t = strip_identity(t[2][0])
+    ok = t[0] == "call" and name_matches(t[1], "tower_service::Service::poll_ready") and mentions_field(t[2][0], "inner") and mentions_param(t[2][0], "self") and is_param(t[2][1], "cx")
+    others = [c.fn for c in b.calls() if not b.is_cleanup(c.bb) and not name_matches(c.fn or "", ("Service::poll_ready", "Poll::map_err", "convert::Into::into")) and not is_tracing(c)]
+    ob.require(ok and not others, f"{key}/delegates", f"poll_ready of {ty.split('::')[-1]} is {show(t)[:100]}" + (f" and also calls {[x.split('::')[-1] for x in others][:3]}" if others else ""), b.path)
+
+
+def check_api_forwarder(ob, prog, name, key=None):
+    """`Network::<name>(&self, a, b, ..)` is a plain forwarder: it answers with `NetworkInner::<name>(&self.0, a, b, ..)` -
+    same arguments in the same order, called once, nothing else decided on the way (no fast path, no post-processing)."""
+    outer = prog.body(f"anemo::network::Network::{name}")
+    if outer is None:
+        raise AnchorLost(f"body anemo::network::Network::{name} not found")
+    kids = [k for k in prog.children(outer) if k.coroutine]
+    b = kids[0] if kids else outer
+    o = Origins(b)
+    key = key or f"api/{name}"
+    cs = [c for c in b.calls() if not b.is_cleanup(c.bb) and name_matches(c.fn, f"anemo::network::NetworkInner::{name}")]
+    ob.require(len(cs) == 1 and cs[0].bb not in b.cyclic_blocks(), f"{key}/forwards-once", f"Network::{name} does not call NetworkInner::{name} exactly once", b.path)
+    if len(cs) != 1:
+        return
+    c = cs[0]
+    pnames = [outer.locals[i].get("name") for i in range(2, outer.argc + 1)]
+    okargs = len(c.args) == len(pnames) + 1 and mentions_field(o.of_operand(c.args[0]), "0") and (mentions_param(o.of_operand(c.args[0]), "self") or mentions_upvar(o.of_operand(c.args[0]), "self"))
+    for a_, pn_ in zip(c.args[1:], pnames):
+        t_ = strip_identity(o.of_operand(a_))
+        while t_[0] == "call" and name_matches(t_[1], ("convert::Into::into", "convert::From::from")) and t_[2]:
+            t_ = strip_identity(t_[2][0])
+        okargs = okargs and is_param_or_upvar(t_, pn_)
+    ob.require(okargs, f"{key}/same-arguments", f"Network::{name} calls NetworkInner::{name}({', '.join(show(o.of_operand(a))[:30] for a in c.args)})", b.path, b.loc(c.bb))
+    ret = strip_identity(o.of_local(0))
+    direct = ret[0] == "call" and ret[3] == c.bb if ret[0] == "call" else False
+    awaited = term_has_call(ret, "Future::poll") and any(x[0] == "call" and name_matches(x[1], f"anemo::network::NetworkInner::{name}") and x[3] == c.bb for x in walk(ret)) \
+        and not any(x[0] in ("phi",) for x in walk(ret)) and ret[0] == "field"
+    ob.require(direct or awaited, f"{key}/answers-with-it", f"Network::{name} returns {show(ret)[:100]}", b.path)
+    other = [x for x in b.calls() if not b.is_cleanup(x.bb) and x is not c and not is_tracing(x) and (x.local or name_matches(x.fn or "", ("Option::", "Result::", "Weak::upgrade")))
+             and not name_matches(x.fn or "", ("Try::branch", "FromResidual::from_residual", "Future::poll", "IntoFuture::into_future"))]
+    ob.require(not other, f"{key}/nothing-else", f"Network::{name} also calls {[x.fn.split('::')[-1] for x in other][:4]}", b.path)
+
+
 def is_param_or_upvar(t, name):
     """the value of parameter `name` - seen from the function itself or from its async body (where it is a capture)"""
     s = strip_identity(t)
